@@ -63,7 +63,7 @@ def _run_one(args):
         res['wall'] = time.time() - t0
         if res['violations']:
             res['case'] = case
-        elif idx < 3:
+        if idx < 3:
             res['sample'] = mod.sample_of(case) if hasattr(mod, 'sample_of') else case
         return res
     except BaseException as e:       # harness error, reported apart from violations
